@@ -1,3 +1,11 @@
 # Executors and targets; each is guarded by flavour.
 verif_exe(enginesim enginesim.cpp)
 target_link_libraries(enginesim PRIVATE libllbuild)
+
+if(VERIF_FLAVOUR STREQUAL "asan")
+  foreach(fz ninja_lexer ninja_loader makefile_deps depinfo buildfile)
+    verif_exe(fz_${fz} ${CMAKE_CURRENT_SOURCE_DIR}/../fuzz/fz_${fz}.cpp)
+    target_include_directories(fz_${fz} PRIVATE ${CMAKE_CURRENT_SOURCE_DIR}/../fuzz)
+    target_link_options(fz_${fz} PRIVATE -fsanitize=fuzzer)
+  endforeach()
+endif()
